@@ -373,6 +373,7 @@ advance(struct detached_bitstream bs)
     Trace(("Advanced over miss-recognized bit pattern at {%u}",
            nbsx2(rb->base)));
 
+    VERIF_EVENT(VE_ADVANCE, head_offs, rb->base.major, rb->base.minor);
     decoder_free(&rb->ds);
     free(rb);
     work_units++;
@@ -408,6 +409,7 @@ do_parse(void)
   true_bitstream = attach(parser_bs);
   rv = parse(&par, &head_blk.hdr, &true_bitstream, &garbage);
   advance(detach(true_bitstream));
+  VERIF_EVENT(VE_PARSE, rv, parser_bs.pos.major, parser_bs.pos.minor);
   check_invariants();
 
   Trace(("Parser advancved to {%lu}",
@@ -501,6 +503,7 @@ do_parse(void)
 
     Trace(("Parser discovered a mis-recognized bit pattern at {%u}",
            nbsx2(ublk->base)));
+    VERIF_EVENT(VE_MISREC, ublk->base.major, ublk->base.minor, ublk->complete);
     if (ublk->complete) {
       free(ublk);
     }
@@ -515,6 +518,7 @@ do_parse(void)
 
     Trace(("Parser took advantage of pattern found by scanner at {%u}",
            nbsx2(ublk->base)));
+    VERIF_EVENT(VE_TAKEN, ublk->base.major, ublk->base.minor, ublk->complete);
     advance(ublk->end_pos);
 
     if (ublk->complete) {
@@ -565,6 +569,7 @@ do_retrieve(void)
   true_bitstream = attach(rb->curr_pos);
   rv = retrieve(&rb->ds, &true_bitstream);
   rb->curr_pos = detach(true_bitstream);
+  VERIF_EVENT(VE_RETR, rb->base.major, rb->base.minor, rv);
 
   if (parsing_done) {
     decoder_free(&rb->ds);
@@ -674,6 +679,7 @@ do_emit(void)
   oblk->size = out_granul - oblk->size;
   oblk->status = rv;
   oblk->base = eb->base;
+  VERIF_EVENT(VE_EMIT, oblk->base.major, oblk->base.minor, rv);
 
   if (rv == MORE) {
     oblk->end_offset = 0;
@@ -713,6 +719,8 @@ do_reorder(void)
 
   if (empty(order_q) || pos_lt(peek(reord_q)->base, dq_get(order_q, 0).base)) {
     Trace(("Rejected bogus block at {%u}", nbsx2(peek(reord_q)->base)));
+    VERIF_EVENT(VE_BOGUS, peek(reord_q)->base.major, peek(reord_q)->base.minor,
+                0);
     free(dequeue(reord_q));
     out_slots++;
     check_invariants();
@@ -721,6 +729,7 @@ do_reorder(void)
 
   ord = shift(order_q);
   oblk = dequeue(reord_q);
+  VERIF_EVENT(VE_REORDER, oblk->base.major, oblk->base.minor, oblk->status);
 
   offs_incr = (reord_offs < oblk->end_offset ?
                oblk->end_offset - reord_offs : 0u);
@@ -784,6 +793,7 @@ do_scan(void)
   if (pos_le(bs->pos, parser_bs.pos)) {
     Trace(("Scanner found a known pattern at {%lu}",
            32ul + 32ul * bs->offset - bs->live));
+    VERIF_EVENT(VE_SCAN_HIT, bs->pos.major, bs->pos.minor, 1);
     work_units++;
   }
   else {
@@ -792,6 +802,7 @@ do_scan(void)
 
     Trace(("Scanner found a unique match at {%lu}",
            32ul + 32ul * bs->offset - bs->live));
+    VERIF_EVENT(VE_SCAN_HIT, bs->pos.major, bs->pos.minor, 0);
 
     ub = XMALLOC(struct unord_blk);
     ub->base = bs->pos;
@@ -858,6 +869,7 @@ on_input_avail(void *buffer, size_t size)
   }
 
   eof_missing = missing;
+  VERIF_EVENT(VE_INPUT, tail_offs, iblk->size, size);
   tail_offs += iblk->size;
   push(input_q, iblk);
   enqueue(scan_q, scan_task);
@@ -875,6 +887,7 @@ on_write_complete(void *buffer)
 
   sched_lock();
   ++out_slots;
+  VERIF_EVENT(VE_WRITTEN, out_slots, 0, 0);
   check_invariants();
   sched_unlock();
 }
